@@ -11,6 +11,7 @@ Local Open Scope Z_scope.
    later reads untouched - so the next call starts from the same condition. *)
 Theorem C05_own_reply : forall s c v w wstr names pre tpre f tpost rest,
   c <> 0%nat -> get_chan (s_chans s) c = Some v -> conn_healthy s -> s_io s = true ->
+  s_sendfail s = false ->
   c_state v = OPEN -> c_errs v = [] -> c_req v = [] -> c_resp v = [] ->
   forallb (fun t => forallb (quiet c names) t) pre = true ->
   forallb (quiet c names) tpre = true -> in_names (f_name f) names = true ->
